@@ -33,7 +33,21 @@ fn run_one(log: &mut Log, tag: &str, algo: &str, p: &[u8], texts: &[Vec<u8>]) {
         Some(m) => m,
         None => return,
     };
-    for t in texts {
+    for (ti, t) in texts.iter().enumerate() {
+        // every 4th text is also handed over as a lazy iterator without a size hint (find_all takes
+        // any IntoIterator for ShiftAnd and KMP)
+        if ti % 4 == 1 {
+            if let M::SA(_) | M::KM(_) = &m {
+                log.call("find_all", json!({"t": bytes(t), "lazy": 1}), || {
+                    let v: Vec<usize> = match &m {
+                        M::SA(x) => x.find_all(t.iter().filter(|_| true)).collect(),
+                        M::KM(x) => x.find_all(t.iter().filter(|_| true)).collect(),
+                        _ => vec![],
+                    };
+                    json!({"v": usizes(&v)})
+                });
+            }
+        }
         log.call("find_all", json!({"t": bytes(t)}), || {
             let v: Vec<usize> = match &m {
                 M::SA(x) => x.find_all(t.iter()).collect(),
@@ -131,14 +145,23 @@ pub fn drive(log: &mut Log) {
     // (a3) texts of 10^5 .. 4*10^6 symbols: the comb family (a^(L-1) b)^r, pattern a^m b; the text is
     // logged by its parameters and the spec knows the occurrences in closed form
     for algo in ALGOS.iter() {
-        for (l, r) in [(1000usize, 1000usize), (4096, 257), (65_537, 17), (50, 70_000), (1 << 20, 4)] {
+        for (l, r) in [(1000usize, 1000usize), (4096, 257), (65_537, 17), (50, 70_000), (1 << 20, 4), (70_001, 3), (140_000, 2)] {
             case += 1;
             if !log.mine(case) {
                 continue;
             }
             let mut rng = Rng::new(seed, 8, case);
             let bp = *algo == "shiftand" || *algo == "bndm";
-            let m = if bp { rng.range(0, 63.min(l as i64 - 1)) } else { rng.range(0, 200.min(l as i64 - 1)) } as usize;
+            let m = if bp {
+                rng.range(0, 63.min(l as i64 - 1))
+            } else if l == 70_001 || l == 140_000 {
+                // patterns beyond 2^16 symbols (no documented limit for BOM / Horspool / KMP); the run of
+                // a's is only slightly longer than the pattern (BOM is quadratic on long unary runs)
+                log.oblige("pattern_longer_than_65536");
+                l as i64 - 1 - rng.range(0, 40)
+            } else {
+                rng.range(0, 200.min(l as i64 - 1))
+            } as usize;
             let (a, b) = (rng.below(256) as u8, 0u8);
             let a = if a == b { 7 } else { a };
             let mut p = vec![a; m];
